@@ -22,7 +22,10 @@ def run(ctx):
             fp.oracle_c02(ctx, case, res)
     # graph stage (instructions + performer on abstract parameter classes) AND the whole pipeline (bit-exact output, WF.modelOK /
     # skeleton evaluated on the model's own output, NF membership) are compared with the Lean model on every case
-    fp.explore(ctx, drv, 600 if ctx.tier == "quick" else 4000, per_case, graph_corr=True, pipe_corr=True)
+    def gen(rng, i):
+        # constants exported as graph outputs (frozen variables returned next to the activations) in every fourth case
+        return fp.gen_case(rng, i, const_output=0.5, dup_output=0.25) if i % 4 == 2 else fp.gen_case(rng, i)
+    fp.explore(ctx, drv, 600 if ctx.tier == "quick" else 4000, per_case, gen=gen, graph_corr=True, pipe_corr=True)
     drv.close()
     return common.finish(ctx)
 
